@@ -50,5 +50,7 @@ func IsDir(path string) bool
 func MkdirAll(path string)
 func RemoveAll(path string)
 func List(dir string) []string
+func Checkpoint() int
+func Restore(id int)
 func Snapshot(root string) int
 func SnapEq(a, b int, except ...string) bool
